@@ -57,6 +57,10 @@ class Chooser:
         self.trail.append((n, v))
         return v
 
+    def chance(self, n: int) -> bool:
+        """A yes/no decision taken with probability 1/n by the schedule-driven chooser (a plain binary branch when enumerating)."""
+        return self.choice(n) == n - 1
+
 
 class PathChooser(Chooser):
     """Used by exhaustive enumeration: follows an explicit path, then takes 0; records branching factors."""
@@ -72,6 +76,9 @@ class PathChooser(Chooser):
         self.i += 1
         self.trail.append((n, v))
         return v
+
+    def chance(self, n: int) -> bool:
+        return self.choice(2) == 1
 
 
 class Control:
@@ -169,7 +176,7 @@ class ControlledRunner(Runner):
                 raise HarnessTimeout('wait() called repeatedly with nothing in flight')
             return
         ch = self.ctl.chooser
-        if self.ctl.idle_budget > 0 and ch.choice(5) == 4:
+        if self.ctl.idle_budget > 0 and ch.chance(5):
             self.ctl.idle_budget -= 1
             self.ctl.log('idle')
             return
